@@ -138,6 +138,17 @@ fn demo(which: &str) -> i32 {
             println!("O1 observation: malformed COO quadratic: f*g panics={r1}, f+f panics={r2}, term iterator panics={r3}, penalty_method panics={r4}");
             if r1 && r2 && r3 && r4 { 0 } else { 1 }
         }
+        "O2" => {
+            // observation: Polynomial::partial_evaluate skips a monomial with |coefficient| <= EPSILON together with its ids, so a fixed variable that occurs only there is not
+            // in the returned set ("only fixed variables that occurred" holds, "exactly" does not) - the reason why the shared relation pe_rel says subset
+            use v1::function::Function as F;
+            use ommx::Evaluate;
+            let mut f = bounded::f_of(F::Polynomial(bounded::poly(&[(&[7], 1e-17), (&[1, 1, 1], 2.0)])));
+            let st: v1::State = [(7u64, 3.0)].into_iter().collect::<HashMap<u64, f64>>().into();
+            let used = f.partial_evaluate(&st).unwrap();
+            println!("O2 observation: partial_evaluate of 1e-17*x7 + 2*x1^3 fixing x7: returned ids {used:?}, result {f:?}");
+            if used.is_empty() { 0 } else { 1 }
+        }
         "D7" => {
             let i = inst(vec![dv(0, Kind::Continuous, Some((0.0, 1.0)))], Function::from(Linear::single_term(5, 1.0)), vec![]);
             let raw_ok = i.validate().is_ok();
@@ -191,6 +202,6 @@ fn main() {
             }
         }
     }
-    println!("usage: rx bounded <Cxx> | rx demo <D1|D2|D3|D7|D13|D13u|D5a|D5b|D5c|D5d|D6|O1>");
+    println!("usage: rx bounded <Cxx> | rx demo <D1|D2|D3|D7|D13|D13u|D5a|D5b|D5c|D5d|D6|O1|O2>");
     std::process::exit(2);
 }
